@@ -221,7 +221,7 @@ def run(prop, tier, seed, replay=None):
         try:
             plan = [(w, None if n == -1 else n) for (w, n) in r["run"]["plan"]]
             oc = r["run"]["ops"].get("C")
-            got = rd.run_schedule(tmpl, r["run"]["ops"]["A"], r["run"]["ops"]["B"], plan, shared=r["run"]["shared"],
+            got = rd.run_schedule(tmpl, r["run"]["ops"]["A"], r["run"]["ops"]["B"], plan, shared=("late" if r["run"].get("lateopen") else r["run"]["shared"]),
                                   opc=oc if oc and oc.get("t") != "none" else None)
             got["pair"] = r["run"]["pair"]
             got["id"] = 1
@@ -242,10 +242,12 @@ def run(prop, tier, seed, replay=None):
         pairs += [(o, READ) for o in (ops if not quick else rng.sample(ops, 8))]
         jobs = []
         for kind in ("tree", "bare"):
-            for shared in (True, False):
+            for shared in (True, False, "late"):
                 chunk = 5
-                for i in range(0, len(pairs), chunk):
-                    jobs.append({"kind": kind, "shared": shared, "pairs": pairs[i:i + chunk],
+                # (the late-open variant on a part of the pairs in the quick tier)
+                use = pairs if (shared != "late" or not quick) else pairs[:30]
+                for i in range(0, len(use), chunk):
+                    jobs.append({"kind": kind, "shared": shared, "pairs": use[i:i + chunk],
                                  "deep": 0 if quick else 12, "seed": rng.randrange(1 << 30)})
         # the same through HTTP: requests to a real aiohttp server whose updates run in its
         # thread pool, gated at the same file-system steps
@@ -316,7 +318,8 @@ def run(prop, tier, seed, replay=None):
         for r in runs:
             v = verdicts[r["id"]]
             if v["k"] in ("known", "viol") and v["dev"] not in first and r.get("level") != "http" and r["pair"] != "seq":
-                first[v["dev"]] = {"kind": r["kind"], "shared": r["shared"], "ops": r["ops"], "plan": r["plan"],
+                first[v["dev"]] = {"kind": r["kind"], "shared": "late" if r.get("lateopen") else r["shared"],
+                                   "ops": r["ops"], "plan": r["plan"],
                                    "pair": r["pair"]}
         os.makedirs(os.path.join(common.OUT_DIR, "witness"), exist_ok=True)
         json.dump(first, open(os.path.join(common.OUT_DIR, "witness", "Lin.json"), "w"), indent=1, sort_keys=True)
